@@ -820,4 +820,201 @@ def F61.json (v : F61) : J :=
         ("transaction_type", .str v.ttype), ("customer_reference", .str v.cref), ("bank_reference", J.optStr v.bref),
         ("supplementary_details", J.optStr v.supp)]
 
+
+/-! ### 53B `[/1!a][/34x]` + `[35x]`, 53D `[/1!a][/34x]` + `4*35x`: their own reading of the first line -/
+
+def isUpperOrDigitAscii (c : Char) : Bool := c.isUpper || c.isDigit
+
+/-- 53B: one or two non-empty lines; with two the first is the party identifier (≤ 34) and the second the location (≤ 35);
+a single line is the party identifier when it starts with `/` or looks like a BIC (8–11 capitals / digits), else the location.
+The party identifier keeps its slash. -/
+def F53B.parse (input : Text) : Res OptB :=
+  if input.isEmpty then .ok ⟨none, none⟩
+  else
+    let lines := splitNl input
+    if lines.length > 2 then .err
+    else if lines.any List.isEmpty then .err
+    else match lines with
+      | [a, b] =>
+        if blen a > 34 then .err else if !(a.all isSwiftX) then .err
+        else if blen b > 35 then .err else if !(b.all isSwiftX) then .err
+        else .ok ⟨some a, some b⟩
+      | [line] =>
+        let isParty := line.head? == some '/' || (decide (8 ≤ blen line) && decide (blen line ≤ 11) && line.all isUpperOrDigitAscii)
+        if isParty then
+          (if blen line > 34 then .err else if !(line.all isSwiftX) then .err else .ok ⟨some line, none⟩)
+        else
+          (if blen line > 35 then .err else if !(line.all isSwiftX) then .err else .ok ⟨none, some line⟩)
+      | _ => .err
+def F53B.ser (v : OptB) : Text :=
+  (match v.party with | some p => p ++ (if v.location.isSome then ['\n'] else []) | none => []) ++ (v.location.getD [])
+def F53B.json (v : OptB) : J := .obj [("party_identifier", J.optStr v.party), ("location", J.optStr v.location)]
+
+/-- 53D: the whole first line is the party identifier when more lines follow and it starts with `/` or "looks like an
+account" (≤ 34 bytes, no blank, some digit); 1–4 name and address lines follow -/
+def F53D.parse (input : Text) : Res OptD :=
+  match splitNl input with
+  | [] => .err
+  | first :: rest =>
+    let looks := first.head? == some '/' || (decide (blen first ≤ 34) && !first.contains ' ' && first.any Char.isDigit)
+    if looks && !first.isEmpty && !rest.isEmpty then
+      (if blen first > 35 then .err
+       else if !(first.all isSwiftX) then .err
+       else match parseNameAndAddress rest 0 with
+         | .ok ls => .ok ⟨some first, ls⟩
+         | .err => .err
+         | .panic => .panic)
+    else match parseNameAndAddress (first :: rest) 0 with
+      | .ok ls => .ok ⟨none, ls⟩
+      | .err => .err
+      | .panic => .panic
+def F53D.ser (v : OptD) : Text :=
+  match v.party with
+  | some p => joinNl (p :: v.lines)
+  | none => joinNl v.lines
+def F53D.json (v : OptD) : J := .obj [("party_identifier", J.optStr v.party), ("name_and_address", J.lines v.lines)]
+
+/-! ### 25P `35x` + BIC: on two lines, or on one line with the BIC cut from the end (11 characters tried first, then 8) -/
+
+def parseAccount35 (t : Text) : Res Text :=
+  if t.isEmpty then .err else if blen t > 35 then .err else if t.all isSwiftX then .ok t else .err
+
+def isOkRes {α : Type} : Res α → Bool
+  | .ok _ => true
+  | _ => false
+
+def F25P.parse (input : Text) : Res AcctBic :=
+  if !isAsciiT input then .err
+  else match splitNl input with
+    | [] => .err
+    | l0 :: rest =>
+      if blen l0 > 35 then .err
+      else if !(l0.all isSwiftX) then .err
+      else if l0.isEmpty then .err
+      else match rest with
+        | _ :: _ :: _ => .err
+        | [l1] => (match parseBic l1 with | .ok b => .ok ⟨l0, b⟩ | .err => .err | .panic => .panic)
+        | [] =>
+          if blen input > 8 then
+            let n := input.length
+            let p11 := input.drop (n - 11)
+            let p8 := input.drop (n - 8)
+            if p11.length == 11 && isOkRes (parseBic p11) then
+              (match parseAccount35 (input.take (n - 11)) with | .ok a => .ok ⟨a, p11⟩ | .err => .err | .panic => .panic)
+            else if p8.length == 8 && isOkRes (parseBic p8) then
+              (match parseAccount35 (input.take (n - 8)) with | .ok a => .ok ⟨a, p8⟩ | .err => .err | .panic => .panic)
+            else .err
+          else .err
+def F25P.ser (v : AcctBic) : Text := v.account ++ '\n' :: v.bic
+def F25P.json (v : AcctBic) : J := .obj [("account", .str v.account), ("bic", .str v.bic)]
+
+
+/-! ### structured customers: 50A / 59F `[/34x]` + `4*(1!n/33x)` (numbered lines), 50F account + `[/34x]` + `[4*35x]` + BIC -/
+
+/-- numbered lines `k/text`, `k+1/text`, …: each 1 to 33 x-characters after the slash; `keep` = the value keeps the
+whole line (59F) or the text only (50A) -/
+def numberedLines (keep : Bool) : List Text → Nat → Res (List Text)
+  | [], _ => .ok []
+  | line :: rest, k =>
+    match line with
+    | d :: '/' :: text =>
+      if digitVal d != some k then .err
+      else if text.isEmpty then .err
+      else if blen text > 33 then .err
+      else if !(text.all isSwiftX) then .err
+      else match numberedLines keep rest (k + 1) with
+        | .ok ls => .ok ((if keep then line else text) :: ls)
+        | .err => .err
+        | .panic => .panic
+    | _ => .err
+
+def F50A.parse (input : Text) : Res OptD :=
+  match splitNl input with
+  | [] => .err
+  | l0 :: rest =>
+    match l0 with
+    | '/' :: ident =>
+      if ident.isEmpty then .err
+      else if blen ident > 34 then .err
+      else if !(ident.all isSwiftX) then .err
+      else (match numberedLines false rest 1 with
+        | .ok ls => if ls.isEmpty then .err else if ls.length > 4 then .err else .ok ⟨some ident, ls⟩
+        | .err => .err
+        | .panic => .panic)
+    | _ =>
+      match numberedLines false (l0 :: rest) 1 with
+      | .ok ls => if ls.isEmpty then .err else if ls.length > 4 then .err else .ok ⟨none, ls⟩
+      | .err => .err
+      | .panic => .panic
+def numberFrom (k : Nat) : List Text → List Text
+  | [] => []
+  | l :: ls => (natDigits k ++ '/' :: l) :: numberFrom (k + 1) ls
+def F50A.ser (v : OptD) : Text :=
+  joinNl ((match v.party with | some p => [('/' :: p)] | none => []) ++ numberFrom 1 v.lines)
+def F50A.json (v : OptD) : J := .obj [("party_identifier", J.optStr v.party), ("name_and_address", J.lines v.lines)]
+
+def F59F.parse (input : Text) : Res OptD :=
+  match splitNl input with
+  | [] => .err
+  | l0 :: rest =>
+    match parsePartyIdentifier l0 with
+    | .err => .err
+    | .panic => .panic
+    | .ok (some p) =>
+      (match numberedLines true rest 1 with
+        | .ok ls => if ls.isEmpty then .err else if ls.length > 4 then .err else .ok ⟨some p, ls⟩
+        | .err => .err
+        | .panic => .panic)
+    | .ok none =>
+      (match numberedLines true (l0 :: rest) 1 with
+        | .ok ls => if ls.isEmpty then .err else if ls.length > 4 then .err else .ok ⟨none, ls⟩
+        | .err => .err
+        | .panic => .panic)
+def F59F.ser (v : OptD) : Text :=
+  joinNl ((match v.party with | some p => [('/' :: p)] | none => []) ++ v.lines)
+def F59F.json (v : OptD) : J := .obj [("party_identifier", J.optStr v.party), ("name_and_address", J.lines v.lines)]
+
+structure F50F where
+  account : Text
+  party : Option Text
+  lines : List Text          -- `[]` = the library's `None`
+  bic : Text
+  deriving Repr, DecidableEq
+
+def F50F.parse (input : Text) : Res F50F :=
+  let lines := splitNl input
+  if lines.length < 2 then .err
+  else match lines with
+    | [] => .err
+    | account :: more =>
+      if account.isEmpty then .err
+      else if blen account > 35 then .err
+      else if !(account.all isSwiftX) then .err
+      else match parseBic (more.getLast?.getD []) with
+        | .err => .err
+        | .panic => .panic
+        | .ok bic =>
+          let mid := more.dropLast
+          let withParty : Bool := match mid with | ('/' :: _) :: _ => true | _ => false
+          let partyOk : Res (Option Text) :=
+            if withParty then
+              (match mid with
+               | ('/' :: pid) :: _ =>
+                 if pid.isEmpty then .err else if blen pid > 34 then .err else if !(pid.all isSwiftX) then .err else .ok (some pid)
+               | _ => .ok none)
+            else .ok none
+          match partyOk with
+          | .err => .err
+          | .panic => .panic
+          | .ok party =>
+            let names := if withParty then mid.drop 1 else mid
+            if !(names.all (fun l => !l.isEmpty && decide (blen l ≤ 35) && l.all isSwiftX)) then .err
+            else if names.length > 4 then .err
+            else .ok ⟨account, party, names, bic⟩
+def F50F.ser (v : F50F) : Text :=
+  joinNl ([v.account] ++ (match v.party with | some p => [('/' :: p)] | none => []) ++ v.lines ++ [v.bic])
+def F50F.json (v : F50F) : J :=
+  .obj ([("account", .str v.account)] ++ (match v.party with | some p => [("party_identifier", J.str p)] | none => []) ++
+        (if v.lines.isEmpty then [] else [("name_and_address", J.lines v.lines)]) ++ [("bic", .str v.bic)])
+
 end SwiftMT.Fields
